@@ -49,6 +49,9 @@ pub enum Op {
     NextBack(u16),
     Nth(u16, u8),
     NthBack(u16, u8),
+    /// `dst.clone_from(&src)` between two arrays of the same length / two iterators over arrays of the same length
+    CloneFromArr(u16, u16),
+    CloneFromIter(u16, u16),
     CloneIter(u16),
     FoldRest(u16),
     RFoldRest(u16),
@@ -653,6 +656,50 @@ impl<T: Elem + Clone + Default + Peek> World<T> {
                     (g, w) => return Err(format!("nth: iterator yielded {:?}, model {:?}", g.map(|x| x.get()), w)),
                 }
             }
+            Op::CloneFromArr(s1, s2) | Op::CloneFromIter(s1, s2) => {
+                let arrs = matches!(op, Op::CloneFromArr(..));
+                let ty = if arrs { Ty::Arr } else { Ty::Iter };
+                let i = need!(self.pick(s1, ty));
+                let full = |sl: &Slot<T>| match &sl.e {
+                    Entry::Arr(a) => Some(a.len()),
+                    Entry::Iter(it) => Some(it.full_len()),
+                    _ => None,
+                };
+                let want = full(&self.pool[i]);
+                let j = self.pick_where(s2, |sl| sl.ty() == ty && full(sl) == want);
+                let j = match j {
+                    Some(j) if j != i => j,
+                    _ => {
+                        // no second value of that shape yet: make one (a clone), the next clone_from can use it
+                        let m = self.pool[i].m.clone();
+                        let e = match &self.pool[i].e {
+                            Entry::Arr(a) => Entry::Arr(a.clone_arr()),
+                            Entry::Iter(it) => Entry::Iter(it.clone_iter()),
+                            _ => unreachable!(),
+                        };
+                        self.push(e, m);
+                        return Ok(());
+                    }
+                };
+                let (hi, lo) = if i > j { (i, j) } else { (j, i) };
+                let shi = self.take(hi);
+                let slo = self.take(lo);
+                let (mut dst, src) = if i > j { (shi, slo) } else { (slo, shi) };
+                let ok = match (&mut dst.e, &src.e) {
+                    (Entry::Arr(a), Entry::Arr(b)) => a.clone_from_arr(b),
+                    (Entry::Iter(a), Entry::Iter(b)) => a.clone_from_iter(b),
+                    _ => unreachable!(),
+                };
+                if !ok {
+                    return Err("harness: clone_from between values of different shapes".into());
+                }
+                if !dst.m.is_empty() {
+                    self.stats.lib_released = true;
+                }
+                dst.m = src.m.clone();
+                self.pool.push(dst);
+                self.pool.push(src);
+            }
             Op::CloneIter(s) => {
                 let i = need!(self.pick(s, Ty::Iter));
                 let m = self.pool[i].m.clone();
@@ -979,6 +1026,7 @@ pub fn op_strategy() -> impl Strategy<Value = Op> {
         3 => s().prop_map(Op::NextBack),
         2 => (s(), prop_oneof![9 => any::<u8>(), 1 => 252u8..=255]).prop_map(|(a, k)| Op::Nth(a, k)),
         2 => (s(), prop_oneof![9 => any::<u8>(), 1 => 252u8..=255]).prop_map(|(a, k)| Op::NthBack(a, k)),
+        2 => (any::<bool>(), s(), s()).prop_map(|(arr, a, c)| if arr { Op::CloneFromArr(a, c) } else { Op::CloneFromIter(a, c) }),
         2 => s().prop_map(Op::CloneIter),
         1 => s().prop_map(Op::FoldRest),
         1 => s().prop_map(Op::RFoldRest),
@@ -1057,7 +1105,9 @@ pub fn decode(data: &[u8]) -> Case {
         let s1 = u16::from_le_bytes([g(1), g(2)]);
         let s2 = u16::from_le_bytes([g(3), g(4)]);
         let b = g(5);
-        ops.push(match g(0) % 44 {
+        ops.push(match g(0) % 46 {
+            44 => Op::CloneFromArr(s1, s2),
+            45 => Op::CloneFromIter(s1, s2),
             0 => Op::New(b % 12, (s1 % 13) as u8),
             1 => Op::IntoIter(s1),
             2 => Op::Map(s1, b % 3),
